@@ -2,6 +2,7 @@ package main
 
 import (
 	"fmt"
+	"github.com/jotaen/klog/klog/app"
 	"strings"
 
 	"github.com/jotaen/klog/klog"
@@ -141,6 +142,19 @@ func runC08(env *Env, data map[string]any) *Outcome {
 	}
 	if !strings.HasSuffix(text, "\n") && text != "" {
 		o.Tags = append(o.Tags, "no-final-newline")
+	}
+	// the file-reading layer: what klog reads from a file on disk is the file's bytes (for every byte sequence)
+	{
+		fp := writeFile(env, "c08-read.klg", text)
+		if f, ferr := app.NewFile(fp); ferr == nil {
+			got, rerr := app.ReadFile(f)
+			o.Evals++
+			if rerr != nil {
+				o.Findings = append(o.Findings, Finding{Kind: "D", What: "reading the file fails: " + rerr.Error()})
+			} else if got != text {
+				o.Findings = append(o.Findings, Finding{Kind: "D", What: "reading a file does not return the file's bytes (app.ReadFile)", Impl: hx(short(got, 400))})
+			}
+		}
 	}
 	// For valid texts: the parser's blocks and a no-op reconcile.
 	var valid bool
